@@ -341,3 +341,80 @@ theorem galerkin_dp_entry (nT nS : Nat) (suppT suppS : List Nat) (hT : suppT.Nod
   simp [hτ]
 
 end BemppVerif.Lemmas
+
+namespace BemppVerif.Lemmas
+open BemppVerif.Model.Asm
+
+variable {R : Type} [CommRing R]
+
+/-! ### Linearity in the kernel and transposition (used by C05 / C06) -/
+
+/-- the regular local integral is additive in the kernel values -/
+theorem localReg_add_kernel (d : RegData R) (K1 K2 : Nat → Nat → Nat → Nat → R) (τ σ i j : Nat) :
+    localReg { d with K := fun a b c e => K1 a b c e + K2 a b c e } τ σ i j
+      = localReg { d with K := K1 } τ σ i j + localReg { d with K := K2 } τ σ i j := by
+  unfold localReg rsum
+  by_cases h : d.adjacent τ σ = true
+  · simp [h]
+  · simp only [h, Bool.false_eq_true, if_false]
+    rw [← lsum_map_add]
+    apply lsum_map_congr; intro p _
+    rw [← lsum_map_add]
+    apply lsum_map_congr; intro q _
+    ring
+
+/-- ... and homogeneous: multiplying the kernel by a scalar multiplies the local integral -/
+theorem localReg_smul_kernel (d : RegData R) (a : R) (τ σ i j : Nat) :
+    localReg { d with K := fun x y z w => a * d.K x y z w } τ σ i j = a * localReg d τ σ i j := by
+  unfold localReg rsum
+  by_cases h : d.adjacent τ σ = true
+  · simp [h]
+  · simp only [h, Bool.false_eq_true, if_false]
+    rw [← lsum_map_mul_left]
+    apply lsum_map_congr; intro p _
+    rw [← lsum_map_mul_left]
+    apply lsum_map_congr; intro q _
+    ring
+
+/-- the Galerkin sum is homogeneous in the local integrals -/
+theorem galerkin_smul (T S : SpaceData R) (te tr : List Nat) (a : R) (I : Nat → Nat → Nat → Nat → R) (r c : Nat) :
+    galerkin T S te tr (fun τ σ i j => a * I τ σ i j) r c = a * galerkin T S te tr I r c := by
+  unfold galerkin rsum
+  rw [← lsum_map_mul_left]
+  apply lsum_map_congr; intro τ _
+  rw [← lsum_map_mul_left]
+  apply lsum_map_congr; intro σ _
+  rw [← lsum_map_mul_left]
+  apply lsum_map_congr; intro i _
+  rw [← lsum_map_mul_left]
+  apply lsum_map_congr; intro j _
+  split <;> ring
+
+/-- exchanging the roles of test and trial data in the regular local integral (kernel with its two points exchanged,
+integration elements and shape functions exchanged) transposes it: the regular part of an operator whose kernel is the
+transpose of another one's is the transposed local matrix -/
+theorem localReg_transpose (d : RegData R) (τ σ i j : Nat) :
+    localReg ⟨d.nq, d.w, d.ieS, d.ieT, d.phiS, d.phiT, fun a p b q => d.K b q a p, fun a b => d.adjacent b a⟩ τ σ i j
+      = localReg d σ τ j i := by
+  unfold localReg rsum
+  by_cases h : d.adjacent σ τ = true
+  · simp [h]
+  · simp only [h, Bool.false_eq_true, if_false]
+    rw [lsum_comm]
+    apply lsum_map_congr; intro p _
+    apply lsum_map_congr; intro q _
+    ring
+
+/-- transposing the local integrals and exchanging the spaces transposes the Galerkin matrix -/
+theorem galerkin_transpose (T S : SpaceData R) (te tr : List Nat) (I : Nat → Nat → Nat → Nat → R) (r c : Nat) :
+    galerkin T S te tr (fun τ σ i j => I σ τ j i) r c = galerkin S T tr te I c r := by
+  unfold galerkin rsum
+  rw [lsum_comm]
+  apply lsum_map_congr; intro σ _
+  apply lsum_map_congr; intro τ _
+  rw [lsum_comm]
+  apply lsum_map_congr; intro j _
+  apply lsum_map_congr; intro i _
+  by_cases h1 : T.l2g τ i = r <;> by_cases h2 : S.l2g σ j = c <;> simp [h1, h2] <;> ring
+
+end BemppVerif.Lemmas
